@@ -134,9 +134,13 @@ def run_check(prop: str, tier: str, fn, level="other", technique="", explanation
     known = load_known()
     known_keys = {k["key"]: k for k in known.get("known", []) if k.get("property") == prop}
     new, listed = [], []
+    seen_keys = set()
     for f in ctx.findings:
         if replay_key is not None and f.key != replay_key:
             continue
+        if f.key in seen_keys:
+            continue
+        seen_keys.add(f.key)
         (listed if f.key in known_keys else new).append(f)
 
     EVID.mkdir(parents=True, exist_ok=True)
